@@ -1661,7 +1661,7 @@ func transparentCallSites(p *ssa.Parameter) ([]*ssa.CallCommon, int) {
 // through a transparent callee (local closure / unseen helper) in which EVERY path from entry to a return passes
 // such a call (Must) or merely some instruction is such a call (!Must).
 type VirtualCall struct {
-	Site  ssa.Instruction    // the instruction in fn
+	Site  ssa.Instruction     // the instruction in fn
 	Inner ssa.CallInstruction // the real call (== Site when direct)
 	Via   *ssa.Function       // nil when direct
 	Must  bool
